@@ -133,6 +133,8 @@ impl DetectProp for C09 {
         for m in &full {
             for e in m.cands() {
                 let mut s1 = s.clone();
+                // (on cold caches: what the unrestricted run left behind must not be what makes the two agree)
+                charset_normalizer_rs::verif_hooks::flush_caches();
                 s1.incl = vec![e.clone()];
                 let r = real_detect(&case.bytes, &s1);
                 cx.rep.count("oracle:restricted-run");
